@@ -157,7 +157,7 @@ func H_readd_then_stale() {
 	i := verifChoose("entry", W)
 	e := verifTable[i]
 	verifAssume(verifK.marks[i].state == kDying) // the old file is gone: the kernel has destroyed its mark
-	verifK.addResolve = W                          // the name now refers to a new file
+	verifK.addResolve = W                        // the name now refers to a new file
 	verifAssert(w.Add(e.path) == nil, "re-Add of the re-created path succeeds")
 	nwd := uint32(verifK.nextWd)
 	verifAssert(nwd != e.wd, "model: new watch descriptor")
